@@ -1,4 +1,6 @@
 import FH.RuleLemmas
+import FH.Trunc
+import FH.World
 /-!
 # C11 — End of stack is told apart from truncation; null is never a frame
 (rule-level part; the walk-level truncation theorem is in `C11_truncation_prefix` below)
@@ -29,5 +31,52 @@ theorem C11_a64_error_names_unreadable {rule : RuleA64} {first : Bool} {regs reg
     (h : execA64 rule first regs mem = .ret (.err (.couldNotReadStack a)) regs') :
     mem a = none :=
   execA64_err_stack h
+
+/-- Truncation, one step: with reads at or above `c` failing, a rule-based step either behaves
+as before or reports `CouldNotReadStack(a)` for an unreadable `a ≥ c`. -/
+theorem C11_x64_step_truncation (c : Nat) (rule : RuleX64) (first : Bool) (regs : RegsX64)
+    (mem : Mem) (hr : rule.WF) :
+    TruncOK c (execX64 rule first regs mem) (execX64 rule first regs (cutMem c mem)) :=
+  execX64_trunc c rule first regs mem hr
+
+theorem C11_a64_step_truncation (c : Nat) (rule : RuleA64) (first : Bool) (regs : RegsA64)
+    (mem : Mem) :
+    TruncOK c (execA64 rule first regs mem) (execA64 rule first regs (cutMem c mem)) :=
+  execA64_trunc c rule first regs mem
+
+/-- Truncation, whole walk: for any walk made of truncation-safe steps (any assignment of rules
+to frames, both architectures), cutting the readable stack at `c` yields the same walk or a
+prefix of its frames followed by `Err(CouldNotReadStack(a))` with `a ≥ c`. -/
+theorem C11_truncation_prefix {S : Type} (step : Mem → S → Out S) (mem : Mem) (c : Nat)
+    (hstep : ∀ s, TruncOK c (step mem s) (step (cutMem c mem) s)) (n : Nat) (s : S) :
+    walkWith step (cutMem c mem) n s = walkWith step mem n s ∨
+      ∃ k a, a ≥ c ∧
+        walkWith step (cutMem c mem) n s =
+          (walkWith step mem n s).take k ++ [.err (.couldNotReadStack a)] ∧
+        ∀ r ∈ (walkWith step mem n s).take k, IsFrame r :=
+  walk_trunc step mem c hstep n s
+
+/-- Instance: an x86-64 walk whose frames are unwound by arbitrary cached rules. -/
+theorem C11_x64_rule_walk_truncation (rules : Nat → RuleX64) (hr : ∀ i, (rules i).WF) (mem : Mem)
+    (c n : Nat) (regs : RegsX64) :
+    let step : Mem → (Nat × RegsX64) → Out (Nat × RegsX64) := fun m s =>
+      match execX64 (rules s.1) (s.1 == 0) s.2 m with
+      | .ret r g => .ret r (s.1 + 1, g)
+      | .panic p => .panic p
+    walkWith step (cutMem c mem) n (0, regs) = walkWith step mem n (0, regs) ∨
+      ∃ k a, a ≥ c ∧
+        walkWith step (cutMem c mem) n (0, regs) =
+          (walkWith step mem n (0, regs)).take k ++ [.err (.couldNotReadStack a)] ∧
+        ∀ r ∈ (walkWith step mem n (0, regs)).take k, IsFrame r := by
+  intro step
+  apply walk_trunc
+  intro s
+  rcases execX64_trunc c (rules s.1) (s.1 == 0) s.2 mem (hr s.1) with h | ⟨a, g, ha, h⟩
+  · left; simp only [step, h]
+  · right; exact ⟨a, (s.1 + 1, g), ha, by simp only [step, h]⟩
+
+/-- On the uncacheable paths a null return address is end of stack too (`with_cache`). -/
+theorem C11_uncacheable_null_is_end_of_stack : resOfRa 0 = .done ∧ ∀ ra, ra ≠ 0 → resOfRa ra = .frame ra := by
+  refine ⟨rfl, fun ra h => by simp [resOfRa, h]⟩
 
 end FH
